@@ -77,6 +77,12 @@ class OutputSuppressionContext:
         for fd in (0, 1, 2):
             with contextlib.suppress(OSError):
                 self._saved_fds[fd] = os.dup(fd)
+        if OutputSuppressionContext._null_file.closed:
+            # The code under test of an earlier execution closed the shared sink
+            # (e.g. sys.stdout.close()); later executions must not inherit that.
+            OutputSuppressionContext._null_file = open(  # noqa: PLW1514, PTH123, SIM115
+                os.devnull, mode="w"
+            )
         sys.stdout = self._null_file
         sys.stderr = self._null_file
 
